@@ -81,6 +81,11 @@ def goRFC3339 (s : List Nat) : Bool :=
       | _ => s
     some (goZone s)).getD false
 
+/-- validate.Base64URL after pending/C20-base64url.diff, the part after the regex match:
+    `if strings.HasSuffix(str, "=") { return len(str)%4 == 0 }; return len(str)%4 != 1` -/
+def goBase64URLLen (s : List Nat) : Bool :=
+  if s.getLast? = some 61 then s.length % 4 = 0 else s.length % 4 ≠ 1
+
 /-! ### IPv6 text forms (RFC 4291 §2.2) -/
 
 def splitBy (sep : Nat) : List Nat → List (List Nat)
